@@ -12,7 +12,7 @@ RULE = (
     "cases = describing functions from the typed grammar biased so that about half of the calls / nested-DAG calls "
     "carry twz_active, the flag being a Python constant (True False 0 1 '' 'x' None), a DAG argument, a node result, "
     "result[key] / chained keys / an unpacked element, or an and_/or_/not_/operator expression; flag values come from "
-    "a truthy/falsy pool (0 1 2 '' 'x' None True False () (0,) (1,2) {'a':0} {} [] [0]); each program is run with two "
+    "(programs may contain debug nodes, run with RUN_DEBUG_NODES on and off) a truthy/falsy pool (0 1 2 '' 'x' None True False () (0,) (1,2) {'a':0} {} [] [0]); each program is run with two "
     "argument tuples under two configurations. oracle: value == reference (deactivated call -> None, dependents get "
     "None, deactivated nested DAG -> all outputs None) and the multiset of node observations == reference (a "
     "deactivated node / every non-setup node of a deactivated nested DAG is absent). non-trivial = the program has a "
@@ -34,14 +34,16 @@ def run_case(case: Dict[str, Any]) -> CaseResult:
     skipped_any = False
     ran_any = False
     for args in case["argsets"]:
-        ref_val, ref_exc, R = pc.reference(P, args)
-        if ref_exc is not None:
+        refs = {dbg: pc.reference(P, args, run_debug=dbg) for dbg in (False, True)}
+        ref_val, ref_exc, R = refs[False]
+        if ref_exc is not None or refs[True][1] is not None:
             res.cls("reference-raises")
             continue
         skipped_any = skipped_any or bool(R.skipped)
         ran_any = True
         for cfg in case["configs"]:
-            pc.compare(res, P, args, cfg, ref_val, R)
+            rv, _e, Rd = refs[bool(cfg.get("debug"))]
+            pc.compare(res, P, args, cfg, rv, Rd)
             res.evals += 1
             if res.violations:
                 return res
@@ -59,7 +61,7 @@ def run_case(case: Dict[str, Any]) -> CaseResult:
 
 @st.composite
 def cases(draw: Any, tier: str) -> Dict[str, Any]:
-    c = draw(richgen.rich_case(depth=2, max_stmts=7, flag_w=1, sub_w=3))
+    c = draw(richgen.rich_case(depth=2, max_stmts=7, flag_w=1, sub_w=3, debug_w=1))
     P = c["prog"]
     n_req = sum(1 for _n, d in P["params"] if d is None)
     second = []
